@@ -13,9 +13,12 @@ import common
 import treeutil
 
 ID = 'C03'
-NOT_READY = 'lexer+parser model assembly pending (oracle part built)'
-LEAN_MODULES = ['Yaql.Props.C03']
-REQUIRED_THEOREMS = []
+NOT_READY = None
+LEAN_MODULES = ['Yaql.Props.C03', 'Yaql.Props.C03Lex', 'Yaql.Props.C03Parse']
+REQUIRED_THEOREMS = ['Yaql.Props.C03.total_classified', 'Yaql.Props.C03.lexical_position_inside',
+                     'Yaql.Props.C03.grammar_position_inside', 'Yaql.Props.C03.parseText_eq_parse',
+                     'Yaql.Props.C03.grammar_before_later_lexical', 'Yaql.Props.C03Lex.nextTok_progress',
+                     'Yaql.Props.C03Lex.conversions_total', 'Yaql.Props.C03Parse.parse_total_classified']
 TRUSTED = ["ply's LALR(1) table construction and its token/rule dispatch (modelled by its documented effect)",
            "CPython's re, codecs.decode('unicode-escape'), int()/float() text conversion"]
 ASSUMPTIONS = ['lone surrogates are thrown at the real parser only (Lean Char is a scalar value)']
@@ -135,9 +138,38 @@ def gen_texts(rng, tier):
         yield 'codepoints', 'a' + chr(cp) + 'b'
 
 
-def model_outcomes(drv, texts):
-    """hook for the Lean lexer+parser models; filled in when both models are available"""
-    return None
+_engs = {}
+
+
+def model_eng(ename):
+    """the engine description the model needs (operator list, delegates) - C02's `Eng`"""
+    from props import c02
+    if ename not in _engs:
+        _engs[ename] = c02.Eng('legacy' if ename == 'legacy' else 'default', ename == 'delegates')
+    return _engs[ename]
+
+
+def model_outcomes(drv, ename, texts):
+    """`parseText` of the assembled Lean model (lexer + LR automaton, interleaved) for each text"""
+    import lexcfg
+    e = model_eng(ename)
+    req = dict(p='C03', cfg=lexcfg.cfg_json(e.fac, texts), texts=[lexcfg.cps(t) for t in texts])
+    req.update(e.spec())
+    ans = drv.ask(req)
+    return ans.get('results')
+
+
+def same_outcome(real, real_tree, m):
+    """real: outcome() tuple; m: model reply"""
+    if 'surr' in m:
+        return True            # outside the model (lone surrogate spelled by an escape)
+    if real[0] == 'ok':
+        return 'ok' in m and (real_tree is None or m['ok'] == real_tree)
+    if real[0] == 'lexical':
+        return m.get('lexical', -1) == real[1] and 'lexical' in m
+    if real[0] == 'grammar':
+        return 'grammar' in m and m['grammar'] == real[1]
+    return True                # foreign outcomes are the oracle's business
 
 
 def run(env, res):
@@ -166,6 +198,27 @@ def run(env, res):
     import sys
     sys.setrecursionlimit(10000)
     seen = set()
+    pending = {k: [] for k in engines}     # texts to show to the model, per engine
+
+    def flush(ename, force=False):
+        buf = pending[ename]
+        if drv is None or not buf or (len(buf) < 400 and not force):
+            return
+        pending[ename] = []
+        texts = [t for t, _, _ in buf]
+        ms = model_outcomes(drv, ename, texts)
+        if ms is None:
+            res.fail('mismatch', 'model-table', 'the model cannot build the operator table of engine %s' % ename, dict(engine=ename))
+            return
+        for (t, out, tree), m in zip(buf, ms):
+            res.traces += 1
+            if not same_outcome(out, tree, m):
+                res.fail('mismatch', 'classification', 'engine %s, text %r: real %r, model %r' % (
+                    ename, t[:80], out, {k: v for k, v in m.items() if k != 'ok'} or 'ok (different tree)'),
+                    dict(kind='model', text=t, engine=ename))
+    drv = env['driver']
+    import lexcfg
+    from props import c02
     for kind, text in items:
         if (kind, text) in seen:
             continue
@@ -191,8 +244,19 @@ def run(env, res):
             j = judge(text, out)
             if j:
                 res.fail('oracle', j[0], j[1] + ' [engine %s]' % ename, dict(kind=kind, text=text, engine=ename))
+            elif drv is not None and not lexcfg.has_surrogate(text) and len(text) < 3000:
+                tree = None
+                if out[0] == 'ok':
+                    try:
+                        tree = c02.tree_json(eng(text).expression)
+                    except Exception:  # noqa
+                        tree = None
+                pending[ename].append((text, out, tree))
+                flush(ename)
         if len(res.failures) >= 8:
             break
+    for ename in engines:
+        flush(ename, force=True)
     # the same oracle while another thread parses on the same engine (token-fetch interleavings, as in C01):
     # a position must lie inside the caller's own text whatever else the engine is doing
     if not env['replay'] and not res.failures:
@@ -234,6 +298,18 @@ def run(env, res):
     return res
 
 
-LEVEL_TEXT = 'placeholder'
-LEVEL_NOTE = 'placeholder'
-TECHNIQUE = 'Lean 4 proof + differential classification'
+LEVEL_TEXT = ('Lean 4 theorems about the assembled model of engine(text) (lexer model + LR shift-reduce model run '
+              'interleaved, both total by structural recursion): for EVERY character classification, operator table and '
+              'text the outcome is a tree, a lexical error or a grammar error (total_classified); a lexical position is '
+              'inside the text and names a piece of the text standing there; a grammar position is the start of a token of '
+              'the text (lexical_position_inside, grammar_position_inside); numeral and escape conversions have no third '
+              'outcome (C03Lex.conversions_total). Tie to the code: the real parser and the compiled model classify the same '
+              'generated texts identically (class, position, and the tree when accepted) on three engines; the oracle on the '
+              'real code alone is: no foreign exception, position inside the text, termination - also while another thread '
+              'parses on the same engine.')
+LEVEL_NOTE = ("trusted: Lean kernel; ply's LALR(1) table construction and master-regex dispatch (the model reproduces their "
+              "documented effect; equivalence is differential); CPython re/codecs/int/float conversions (\\N{..} names and "
+              "the int digit limit are passed to the model as data); lone surrogates are outside the model (Lean Char) and "
+              "are only thrown at the real parser. Termination of the real parser is observed under a watchdog.")
+TECHNIQUE = 'Lean 4 proof (structural recursion: totality, position lemmas) + differential classification of generated texts'
+DESIGN_REF = 'DESIGN.md section 5, C03'
